@@ -76,6 +76,9 @@ Inductive addop :=
 
 Inductive kind := KIng | KVS | KTS.
 
+Definition kind_eqb (a b : kind) : bool :=
+  match a, b with KIng, KIng | KVS, KVS | KTS, KTS => true | _, _ => false end.
+
 Inductive op :=
 | Add (a : addop)
 | Del (k : kind) (ns name : string)                    (* DeleteIngress / DeleteVirtualServer / DeleteTransportServer (key ns/name) *)
@@ -239,3 +242,93 @@ Definition mstep (o : mop) (m : smap string) : smap string :=
   end.
 
 Definition mrun (ops : list mop) (m : smap string) : smap string := fold_left (fun m o => mstep o m) ops m.
+
+(* ---------- namespace life cycle (-watch-namespace-label) through the controller's work queue ----------
+   Transcribed from internal/k8s: the informer updates its store at once and queues a task (one entry per key);
+   sync ignores the task of a resource whose namespace has no informers (isTaskOfUnwatchedNamespace);
+   syncIngress/VirtualServer/TransportServer configure the object found in the store when it is of the
+   controller's class and valid, and remove its configuration otherwise (or when it is gone);
+   syncNamespace for a namespace that lost the label runs cleanupUnwatchedNamespacedResources -- which removes
+   the configuration of every object IN THE STORE of that namespace -- and drops the informers.
+   Hosts are distinct (no arbitration), TransportServers are TLS-passthrough ones. *)
+Record nobj := { o_kind : kind; o_ns : string; o_name : string; o_stamp : Z; o_ok : bool; o_host : string }.
+
+Inductive ntask := TRes (k : kind) (ns name : string) | TNs (ns : string).
+Inductive nevent := NPut (o : nobj) | NDel (k : kind) (ns name : string) | NUnlabel (ns : string) | NDrain.
+
+Record nstate := {
+  n_store : list nobj;        (* the informer stores of the watched namespaces *)
+  n_cfg : list nobj;          (* what is configured (Configuration + Configurator): in the order it was configured *)
+  n_watched : list string;    (* namespaces with informers *)
+  n_labelled : list string;
+  n_queue : list ntask
+}.
+
+Definition is_obj (k : kind) (ns name : string) (o : nobj) : bool :=
+  kind_eqb k (o_kind o) && String.eqb ns (o_ns o) && String.eqb name (o_name o).
+Definition drop_obj (k : kind) (ns name : string) (l : list nobj) : list nobj :=
+  filter (fun o => negb (is_obj k ns name o)) l.
+Definition mem_s (x : string) (l : list string) : bool := existsb (String.eqb x) l.
+Definition drop_s (x : string) (l : list string) : list string := filter (fun y => negb (String.eqb x y)) l.
+
+Definition ntask_eqb (a b : ntask) : bool :=
+  match a, b with
+  | TRes k ns n, TRes k' ns' n' => kind_eqb k k' && String.eqb ns ns' && String.eqb n n'
+  | TNs ns, TNs ns' => String.eqb ns ns'
+  | _, _ => false
+  end.
+Definition enqueue (t : ntask) (q : list ntask) : list ntask := if existsb (ntask_eqb t) q then q else (q ++ [t])%list.
+
+Definition nsync (t : ntask) (st : nstate) : nstate :=
+  match t with
+  | TRes k ns name =>
+      if negb (mem_s ns (n_watched st)) then st       (* ignoredTask *)
+      else
+        let cfg' := match find (is_obj k ns name) (n_store st) with
+                    | Some o => if o_ok o then (drop_obj k ns name (n_cfg st) ++ [o])%list else drop_obj k ns name (n_cfg st)
+                    | None => drop_obj k ns name (n_cfg st)
+                    end in
+        {| n_store := n_store st; n_cfg := cfg'; n_watched := n_watched st; n_labelled := n_labelled st; n_queue := n_queue st |}
+  | TNs ns =>
+      if mem_s ns (n_labelled st) || negb (mem_s ns (n_watched st)) then st
+      else
+        {| n_store := n_store st;
+           n_cfg := filter (fun c => negb (String.eqb (o_ns c) ns &&
+                                           existsb (is_obj (o_kind c) (o_ns c) (o_name c)) (n_store st))) (n_cfg st);
+           n_watched := drop_s ns (n_watched st); n_labelled := n_labelled st; n_queue := n_queue st |}
+  end.
+
+Definition nstep (e : nevent) (st : nstate) : nstate :=
+  match e with
+  | NPut o =>
+      if mem_s (o_ns o) (n_watched st)
+      then {| n_store := o :: drop_obj (o_kind o) (o_ns o) (o_name o) (n_store st); n_cfg := n_cfg st; n_watched := n_watched st;
+              n_labelled := n_labelled st; n_queue := enqueue (TRes (o_kind o) (o_ns o) (o_name o)) (n_queue st) |}
+      else st
+  | NDel k ns name =>
+      if mem_s ns (n_watched st)
+      then {| n_store := drop_obj k ns name (n_store st); n_cfg := n_cfg st; n_watched := n_watched st;
+              n_labelled := n_labelled st; n_queue := enqueue (TRes k ns name) (n_queue st) |}
+      else st
+  | NUnlabel ns =>
+      if mem_s ns (n_labelled st)
+      then {| n_store := n_store st; n_cfg := n_cfg st; n_watched := n_watched st;
+              n_labelled := drop_s ns (n_labelled st); n_queue := enqueue (TNs ns) (n_queue st) |}
+      else st
+  | NDrain =>
+      let st' := fold_left (fun s t => nsync t s) (n_queue st) st in
+      {| n_store := n_store st'; n_cfg := n_cfg st'; n_watched := n_watched st'; n_labelled := n_labelled st'; n_queue := [] |}
+  end.
+
+Definition nstate0 (nss : list string) : nstate :=
+  {| n_store := []; n_cfg := []; n_watched := nss; n_labelled := nss; n_queue := [] |}.
+
+Definition nrun (evs : list nevent) (st : nstate) : nstate := fold_left (fun s e => nstep e s) evs st.
+
+(* what the configured objects are as Configurator add operations (their files follow by [add_step]) *)
+Definition addop_of (o : nobj) : addop :=
+  match o_kind o with
+  | KIng => AddIng (o_ns o) (o_name o) (o_stamp o)
+  | KVS => AddVS (o_ns o) (o_name o) (o_stamp o)
+  | KTS => AddTS (o_ns o) (o_name o) (o_stamp o) true (o_host o)
+  end.
